@@ -1,9 +1,10 @@
 #!/usr/bin/env python3
 """C08 - restore plans are valid chains and are found whenever one exists.
 
-R1  TLC exhaustive: MC_RestorePlan.tla (EXTENDS RestorePlan.tla).  Planner = transcription of CalcRestorePlan (+ refresh / restoreCandidateBetter);
-    every file set up to the bound is an initial state (sharded by Part/Parts over parallel TLC processes), every
-    request (each target TXID, latest, each timestamp) is checked: transcription |= declarative spec.
+R1  TLC exhaustive: MC_RestorePlan.tla (EXTENDS RestorePlan.tla).  Planner = transcription of CalcRestorePlan (+ refresh /
+    restoreCandidateBetter); every file set up to the bound is a state (sharded by Part/Parts over TLC processes, fanned
+    out over the workers of a process), every request (each target TXID, latest, each timestamp) is checked:
+    transcription |= declarative spec.
 R2  the same finite input space enumerated here (count cross-checked per shard against TLC's number of initial
     states) + seeded random larger file sets (up to 8 TXIDs, levels 0..9, more files, more timestamps).
 R3  harness/cmd/restoreplan runs the REAL litestream.CalcRestorePlan on every case; RestorePlanObs.tla judges the
@@ -24,9 +25,11 @@ C15_CLAUSES = {"TsExcluded", "TsMonotone", "TsPrecise"}
 MC_INVS_C08 = "Sound CompleteTx CompleteLatest GapReported FurthestLatest TsExcluded TsFurthest TsMonotone ErrKinds"
 
 BOUNDS = {   # tier -> constants of the exhaustive space
-    "quick":    dict(N=4, Levels=[0, 1, 2, 9], MaxFiles=3, MaxTs=2, Parts=16, cfg="MC_RestorePlan_quick.cfg"),
-    "thorough": dict(N=5, Levels=[0, 1, 2, 9], MaxFiles=4, MaxTs=2, Parts=64, cfg="MC_RestorePlan_thorough.cfg"),
+    "quick":    dict(N=4, Levels=[0, 1, 2, 9], MaxFiles=3, MaxTs=2, Parts=1, Fanout=True, cfg="MC_RestorePlan_quick.cfg", chunk=30000),
+    "thorough": dict(N=5, Levels=[0, 1, 2, 9], MaxFiles=4, MaxTs=2, Parts=4, Fanout=True, cfg="MC_RestorePlan_thorough.cfg", chunk=100000),
 }
+# the literal "every file set is an initial state, 16 single-worker processes" form, small bound (thorough tier cross-check)
+INIT_BOUND = dict(N=3, Levels=[0, 1, 2, 9], MaxFiles=3, MaxTs=2, Parts=16, Fanout=False, cfg="MC_RestorePlan_init.cfg", chunk=30000)
 
 _DIV = re.compile(r'<<"DIVERGENCE", (-?\d+), (-?\d+), (-?\d+)>>')
 _NOTE = re.compile(r'<<"NOTE", "(\w+)", (-?\d+), (-?\d+), (-?\d+)>>')
@@ -58,21 +61,25 @@ def reqs_of(b, only_ts=False):
     return r + [[0, t] for t in range(1, b["MaxTs"] + 2)]
 
 
-def write_exhaustive(b, wd, only_ts=False):
-    """one input file per shard; returns ([path], [count])"""
-    parts = b["Parts"]
-    paths = [os.path.join(wd, "ex%d.in.ndjson" % p) for p in range(parts)]
-    fhs = [open(p, "w", buffering=1 << 20) for p in paths]
-    counts = [0] * parts
+def write_exhaustive(b, wd, only_ts=False, write=True):
+    """input files of <= b["chunk"] file sets; returns ([(name, path)], [number of file sets per Part])"""
+    counts = [0] * b["Parts"]
     rq = json.dumps(reqs_of(b, only_ts), separators=(",", ":"))
-    i = 0
+    inputs, fh, i = [], None, 0
     for sh, files in enum_sets(b):
-        fhs[sh].write('{"id":%d,"files":%s,"reqs":%s}\n' % (i, json.dumps(files, separators=(",", ":")), rq))
         counts[sh] += 1
+        if write:
+            if i % b["chunk"] == 0:
+                if fh:
+                    fh.close()
+                name = "ex%d" % (i // b["chunk"])
+                inputs.append((name, os.path.join(wd, name + ".in.ndjson")))
+                fh = open(inputs[-1][1], "w", buffering=1 << 20)
+            fh.write('{"id":%d,"files":%s,"reqs":%s}\n' % (i, json.dumps(files, separators=(",", ":")), rq))
         i += 1
-    for fh in fhs:
+    if fh:
         fh.close()
-    return paths, counts
+    return inputs, counts
 
 
 # ------------------------------------------------------------------------------------------------
@@ -171,13 +178,18 @@ def model_check(rep, wd, b, invariants, label):
     if "Parts = %d" % b["Parts"] not in cfg:
         raise vlib.MachineryError("%s does not declare Parts = %d" % (b["cfg"], b["Parts"]))
 
+    if ("Fanout = TRUE" in cfg) != b["Fanout"]:
+        raise vlib.MachineryError("%s: Fanout differs from the runner's table" % b["cfg"])
+    nproc = min(b["Parts"], vlib.NCPU)
+    workers = max(1, vlib.NCPU // nproc) if b["Fanout"] else 1
+
     def one(p):
         d = subdir(wd, "mc%d" % p)
-        r = vlib.run_tlc("MC_RestorePlan", "run.cfg", d, workers=1, timeout=2400, heap="3g",
+        r = vlib.run_tlc("MC_RestorePlan", "run.cfg", d, workers=workers, timeout=2400, heap="6g",
                          files={"run.cfg": cfg.replace("Part = 0", "Part = %d" % p)})
         shutil.rmtree(d, ignore_errors=True)
         return r
-    rs = par(one, range(b["Parts"]))
+    rs = par(one, range(b["Parts"]), workers=nproc)
     violated = set()
     tot = vlib.TlcResult()
     tot.ok = True
@@ -191,12 +203,14 @@ def model_check(rep, wd, b, invariants, label):
         tot.wall = max(tot.wall, r.wall)
         tot.depth = max(tot.depth, r.depth)
     tot.violated = sorted(violated)
-    rep.add_tlc(label, tot, "N=%d Levels=%s MaxFiles=%d MaxTs=%d, %d shards, invariants: %s" % (
-        b["N"], b["Levels"], b["MaxFiles"], b["MaxTs"], b["Parts"], invariants))
+    rep.add_tlc(label, tot, "N=%d Levels=%s MaxFiles=%d MaxTs=%d, %d TLC process(es) x %d workers, Fanout=%s, invariants: %s" % (
+        b["N"], b["Levels"], b["MaxFiles"], b["MaxTs"], b["Parts"], workers, b["Fanout"], invariants))
     if violated:
         rep.notes.append("design-level counterexample in RestorePlan.tla (%s): %s (verdict only if the real code shows it)" % (
             label, sorted(violated)))
-    return [r.distinct for r in rs]
+    # states that are not file sets: the root and one group state per key (Fanout only)
+    extra = (1 + (len(keys_of(b)) if b["MaxFiles"] > 0 else 0)) if b["Fanout"] else 0
+    return [r.distinct - extra for r in rs]
 
 
 def drive(binary, inp, out):
@@ -204,11 +218,11 @@ def drive(binary, inp, out):
     return json.loads(p.stdout.strip().splitlines()[-1])
 
 
-def judge_file(wd, name, obs_path, levels="0..9"):
+def judge_file(wd, name, obs_path, workers):
     """RestorePlanObs on one ndjson file -> (TlcResult, verdicts [(clause, line, id, req)], divergences, notes)"""
     d = subdir(wd, "j-" + name)
     os.replace(obs_path, os.path.join(d, "restoreplan_obs.ndjson"))
-    r = vlib.run_tlc("RestorePlanObs", "RestorePlanObs.cfg", d, workers=1, timeout=2400, heap="4g")
+    r = vlib.run_tlc("RestorePlanObs", "RestorePlanObs.cfg", d, workers=workers, timeout=2400, heap="8g")
     vlib.tlc_expect_ok(r, "RestorePlanObs(%s)" % name)
     if not r.ok:
         raise vlib.MachineryError("RestorePlanObs(%s) did not complete:\n%s" % (name, r.out[-2000:]))
@@ -235,6 +249,9 @@ def nontrivial(line):
 def run_batches(rep, wd, binary, inputs, clauses, prop, label, keep_samples=True):
     """inputs: list of (name, input path). Drives the real code and judges every file in parallel.
     Returns stats dict. Verdicts on `clauses` become violations of `prop`; others are noted."""
+    nproc = max(1, min(4, len(inputs)))
+    workers = max(1, vlib.NCPU // nproc)
+
     def one(item):
         name, inp = item
         out = os.path.join(wd, name + ".out.ndjson")
@@ -246,7 +263,7 @@ def run_batches(rep, wd, binary, inputs, clauses, prop, label, keep_samples=True
                 lines_nt += nontrivial(o)
                 if k == 0:
                     sample = o
-        r, v, dv, nt, d = judge_file(wd, name, out)
+        r, v, dv, nt, d = judge_file(wd, name, out, workers)
         bad = {}
         if v or dv or nt:
             want = set(x[1] for x in v) | set(x[0] for x in dv) | set(x[1] for x in nt)
@@ -255,7 +272,7 @@ def run_batches(rep, wd, binary, inputs, clauses, prop, label, keep_samples=True
         shutil.rmtree(d, ignore_errors=True)
         os.unlink(inp)
         return dict(name=name, info=info, r=r, v=v, dv=dv, nt=nt, lines=by_id or {}, nontrivial=lines_nt, sample=sample)
-    results = par(one, inputs)
+    results = par(one, inputs, workers=nproc)
     st = dict(cases=0, evals=0, nontrivial=0, divergences=0, verdict_cases=0, other_clause_hits=0)
     tot = vlib.TlcResult()
     tot.ok = True
@@ -362,22 +379,27 @@ def main():
         rep.cov["exhaustive"] = True
 
         # R2 the same input space, enumerated here
-        paths, counts = write_exhaustive(b, wd)
+        inputs, counts = write_exhaustive(b, wd)
         if counts != inits:
-            raise vlib.MachineryError("input space mismatch: python enumerates %d file sets (%s...), TLC %d initial states (%s...)" % (
+            raise vlib.MachineryError("input space mismatch: python enumerates %d file sets (%s...), TLC %d (%s...)" % (
                 sum(counts), counts[:4], sum(inits), inits[:4]))
         rep.cov["input_space"] = {"file_sets": sum(counts), "requests_per_set": len(reqs_of(b)),
-                                  "tlc_initial_states": sum(inits), "shards": b["Parts"]}
+                                  "tlc_file_set_states": sum(inits), "tlc_processes": b["Parts"]}
+        if tier == "thorough":
+            ii = model_check(rep, wd, INIT_BOUND, MC_INVS_C08, "MC_RestorePlan_init (file sets as initial states, 16 processes)")
+            _, cc = write_exhaustive(INIT_BOUND, wd, write=False)
+            if cc != ii:
+                raise vlib.MachineryError("input space mismatch (initial-state form): python %s..., TLC %s..." % (cc[:4], ii[:4]))
+            rep.cov["input_space"]["init_form"] = {"file_sets": sum(cc), "tlc_initial_states": sum(ii), "shards": 16}
         # R3 real code + judge
-        st = run_batches(rep, wd, binary, [("ex%d" % p, paths[p]) for p in range(b["Parts"])], C08_CLAUSES, PROP, "exhaustive")
+        st = run_batches(rep, wd, binary, inputs, C08_CLAUSES, PROP, "exhaustive")
         # random larger cases
         nrand = 3000 if tier == "quick" else 60000
-        nb = 16 if tier == "quick" else 32
         rc = random_cases(seed, nrand, 10 ** 7)
         rin = []
-        for k in range(nb):
+        for k in range(0, len(rc), b["chunk"]):
             pth = os.path.join(wd, "rnd%d.in.ndjson" % k)
-            write_cases(pth, rc[k::nb])
+            write_cases(pth, rc[k:k + b["chunk"]])
             rin.append(("rnd%d" % k, pth))
         st2 = run_batches(rep, wd, binary, rin, C08_CLAUSES, PROP, "random")
         rep.cov["traces_validated_against_impl"] = st["evals"] + st2["evals"]
